@@ -201,6 +201,22 @@ func (w *World) lenEncModel(fn *ssa.Function) *lenEncInfo {
 				}
 				return
 			}
+			// a slice built by append: header octets and payloads in the order they were appended
+			if bs := px.byteSeqOf(ret.Results[0], fr, st); bs != nil && bs.Open {
+				if parts, ok := bs.partsOf(lp.pos); ok {
+					for _, pt := range parts {
+						switch {
+						case pt.seg != nil:
+							lp.items = append(lp.items, lenItem{seg: px.resolveSeg(pt.seg), pos: pt.pos})
+						case pt.oct == nil:
+							lp.items = append(lp.items, lenItem{unk: "octet stored at an unknown index", pos: pt.pos})
+						default:
+							lp.items = append(lp.items, lenItem{oct: pt.oct, pos: pt.pos})
+						}
+					}
+					return
+				}
+			}
 			lp.unk = "the returned slice is neither a literal nor the content of a bytes.Buffer"
 		},
 	})
